@@ -347,14 +347,8 @@ class KmipSession(threading.Thread):
     def _verify_framing(data):
         """
         Verify that the nested TTLV items of a request are consistent with
-        their length fields before the request is decoded: every item must
-        lie within its parent, a structure must be filled exactly by its
-        children, and fixed-size types must carry their mandated length.
-
-        The decoders read sub-streams by length and accept a stream that is
-        shorter than announced, so without this check a truncated request or
-        a request with an inflated inner length would be decoded (with
-        shortened values) and executed.
+        their length fields before the request is decoded. See
+        utils.verify_ttlv_framing for details.
 
         Args:
             data (bytes): The bytes of one request message. Required.
@@ -362,56 +356,10 @@ class KmipSession(threading.Thread):
         Raises:
             InvalidMessage: if the framing is inconsistent.
         """
-        fixed_lengths = {
-            enums.Types.INTEGER.value: 4,
-            enums.Types.LONG_INTEGER.value: 8,
-            enums.Types.ENUMERATION.value: 4,
-            enums.Types.BOOLEAN.value: 8,
-            enums.Types.DATE_TIME.value: 8,
-            enums.Types.INTERVAL.value: 4
-        }
-        known_types = [
-            x.value for x in enums.Types if x != enums.Types.DEFAULT
-        ]
-
-        # Pairs of (start, end) offsets of item sequences still to verify.
-        pending = [(0, len(data))]
-        while pending:
-            position, end = pending.pop()
-            while position < end:
-                if end - position < 8:
-                    raise exceptions.InvalidMessage(
-                        "The request message contains a truncated item."
-                    )
-                item_type = struct.unpack(
-                    '!B',
-                    bytes(data[position + 3:position + 4])
-                )[0]
-                length = struct.unpack(
-                    '!I',
-                    bytes(data[position + 4:position + 8])
-                )[0]
-                if item_type not in known_types:
-                    raise exceptions.InvalidMessage(
-                        "The request message contains an item of unknown "
-                        "type."
-                    )
-                if fixed_lengths.get(item_type, length) != length:
-                    raise exceptions.InvalidMessage(
-                        "The request message contains an item whose length "
-                        "does not match its type."
-                    )
-                if item_type == enums.Types.STRUCTURE.value:
-                    padded_length = length
-                    pending.append((position + 8, position + 8 + length))
-                else:
-                    padded_length = length + ((8 - (length % 8)) % 8)
-                if position + 8 + padded_length > end:
-                    raise exceptions.InvalidMessage(
-                        "The request message contains an item that runs "
-                        "past the end of the structure holding it."
-                    )
-                position += 8 + padded_length
+        try:
+            utils.verify_ttlv_framing(data)
+        except exceptions.InvalidKmipEncoding as e:
+            raise exceptions.InvalidMessage(str(e))
 
     def _receive_request(self):
         header = self._receive_bytes(8)
